@@ -160,7 +160,7 @@ pub fn run_case(c: &TagCase, stats: &mut Stats) -> Result<(), (String, String)> 
 pub const RULE: &str = "directed: 11-14 fixed-oracle banks; a liquidatee deposits in 9-12 of them and borrows near its limit; the group admin then re-tags those banks through configure_bank(asset_tag) with generated tags (mostly Kamino/Drift/Solend, some default/SOL/staked); the debt price is raised and a funded liquidator seizes one unit from the banks in a generated order (classic liquidation is the only non-venue path that opens integration-tagged positions). In two thirds of the cases the liquidator also carries a debt of its own and, at a generated step, is made liquidatable for a moment so that a third party seizes the WHOLE of one of its integration positions (the balance stays open with zero shares) before its price recovers. After every successful liquidation: <= 8 integration positions, no staked + default-class mix, <= 16 positions. Non-trivial = case in which the liquidator reached 8 integration positions and a further new integration position was refused.";
 
 pub fn run(ctx: &Ctx) -> Report {
-    let cases: u32 = ctx.tier.pick(150, 15_000);
+    let cases: u32 = ctx.tier.pick(300, 15_000);
     par_workers(ctx.threads, |wi| {
         let mut rep = Report::new(RULE);
         let strat = case_strategy();
